@@ -3,7 +3,7 @@
 import json, glob, os, re
 V = os.path.dirname(os.path.dirname(os.path.abspath(__file__)))
 rows = []
-for m in sorted(glob.glob(os.path.join(V, 'seeded', '*', 'meta.json'))):
+for m in sorted(glob.glob(os.path.join(V, 'seeded', '*', 'meta.json'))) + sorted(glob.glob(os.path.join(V, 'redteam', '*', 'meta.json'))):
     d = json.load(open(m))
     sid = os.path.basename(os.path.dirname(m))
     notes = d.get('needs_to_manifest', '')
@@ -19,8 +19,11 @@ for m in sorted(glob.glob(os.path.join(V, 'seeded', '*', 'meta.json'))):
         cl = re.search(r'clause=(\S+)', c.get('detail', ''))
         eng = re.search(r'found by (\S+?)[;-]', c.get('detail', ''))
         dets.append('%s %s: %s%s' % (p, c.get('tier'), 'caught' if c.get('detected') else 'MISSED', (' (%s%s)' % (cl.group(1), ', ' + eng.group(1) if eng else '')) if cl else ''))
-    rows.append((sid, d.get('property'), 'adversarial' if d.get('round') else 'independent', d.get('suite_with_change', '?').replace('Checks: ', ''), first, '; '.join(dets)))
-out = ['# Seeded changes (produced by sub-agents that saw only the property text)', '',
+    rnd = d.get('round') or ''
+    kind = 'white-box red team' if 'red team' in rnd else 'adversarial (told what is covered)' if rnd.startswith('adversarial') else 'independent'
+    rows.append((sid, d.get('property'), kind, d.get('suite_with_change', '?').replace('Checks: ', ''), first, '; '.join(dets)))
+out = ['# Seeded changes (seeded/: produced by sub-agents that saw only the property text) and red-team changes (redteam/: producers could read /verif)', '',
+       'The last column is the FINAL result, after the repairs described in DESIGN.md section 7; what was missed at first is recorded there.', '',
        '| id | property | round | suite with change | what it needs (from the producer\'s notes) | our checks |', '|---|---|---|---|---|---|']
 for r in rows:
     out.append('| %s | %s | %s | %s | %s | %s |' % r)
